@@ -9,6 +9,7 @@ import Vlsp.Model.Go
 import Vlsp.Model.Cache
 import Vlsp.Spec.LatestSpec
 import Vlsp.Spec.Ranges
+import Vlsp.Spec.NpmDenote
 import Vlsp.Spec.RefEco
 import Vlsp.Model.Checker
 import Vlsp.Model.Claim
